@@ -133,6 +133,24 @@ def resolve (cv : Conv) (app : List Cmd) (tokens : List Str) : Except Err (List 
       | .ok (some r) => created r
       | .ok none => .error .cannotResolve
 
+/-! ## Several `resolve()` calls on ONE resolver object
+
+The application config caches its resolver, so one `DefaultResolver` object serves every `resolve_command` of an
+application.  The only thing a call computes that a later call could see is the command its walk reached;
+`process_arguments` starts every call from `current_command = None` (the `none` handed to `walk` in `resolve`).
+`resolveHistory` threads what the previous call reached through the calls - and never reads it. -/
+
+/-- the command (and its name path) the walk of one call reaches -/
+def reached (app : List Cmd) (tokens : List Str) : Option (Cmd × List Str) :=
+  walk (namedColl app) none (lead tokens)
+
+/-- the answers of the calls `lines` made one after the other on one resolver object; `prev` = what the call before
+the first of them reached -/
+def resolveHistory (cv : Conv) (app : List Cmd) :
+    Option (Cmd × List Str) → List (List Str) → List (Except Err (List Str × Args))
+  | _, [] => []
+  | _, l :: r => resolve cv app l :: resolveHistory cv app (reached app l) r
+
 /-! ## Do two spellings of a path look up the same commands?  (executable; `Props/C03.alias_invariant`)
 
 The driver evaluates `sameLookupsB` on the tree read from the REAL application for the leading tokens
